@@ -206,9 +206,10 @@ class DeqRef:
             l[:] = list(self.d[a[1]])
             self.bs[i] = self.bs[a[1]]
         elif k == "swap" and n == 2:
-            # precondition of this class (not of std::deque): both deques have the same block size
-            if not (0 <= a[1] < ND) or self.bs[i] != self.bs[a[1]]:
+            if not (0 <= a[1] < ND):
                 return None
+            if self.bs[i] != self.bs[a[1]]:
+                tag = "swap-diffbs"      # the block size is a construction parameter and is not exchanged
             self.d[i], self.d[a[1]] = self.d[a[1]], self.d[i]
         else:
             return None
@@ -438,6 +439,18 @@ class StrRef:
             if p is None or p >= len(s):
                 return None
             del s[p]
+        elif k == "eraser" and n == 3:
+            x = num(a[1]); y = num(a[2])
+            if x is None or y is None or not (x <= y <= len(s)):
+                return None
+            if not self.buf[i]:
+                tag = "eraser-nobuf"
+            del s[x:y]
+        elif k == "assignit" and n == 4:
+            j = num(a[1]); x = num(a[2]); y = num(a[3])
+            if j is None or j >= NSTR or j == i or x is None or y is None or not (x <= y <= len(self.s[j])):
+                return None
+            s[:] = self.s[j][x:y]; self.buf[i] = True
         elif k == "clear" and n == 1:
             del s[:]; self.buf[i] = False
         elif k == "resize" and n == 3:
@@ -593,6 +606,30 @@ def gen_vec(r, maxops, alias=True):
     return ops
 
 
+def gen_map_grow(r, maxops):
+    """default-parameter map (29 buckets, load factor 0.75, erase threshold 50) grown past the rehash points (41st, 88th,
+    188th distinct insertion) with lookups / erases / re-insertions of the key inserted last"""
+    ref = MapRef(); ops = []
+    nops = r.range(60, maxops)
+    keyspace = r.choice([150, 400, 1000])
+    last = None
+    while len(ops) < nops:
+        k = r.weighted([("ins", 30), ("set", 6), ("findlast", 6), ("eraselast", 3), ("erase", 4), ("find", 2)])
+        key = r.below(keyspace)
+        if k in ("ins", "set"):
+            line = "map %s 0 %d %d" % (k, key, r.range(-9, 99)); last = key
+        elif k == "findlast" and last is not None:
+            line = "map find 0 %d" % last
+        elif k == "eraselast" and last is not None:
+            line = "map erase 0 %d" % last
+        elif k == "erase" and ref.m[0]:
+            line = "map erase 0 %d" % r.choice(ref.m[0])[0]
+        else:
+            line = "map find 0 %d" % key
+        _emit(ref, ops, line)
+    return ops
+
+
 def gen_map(r, maxops, big=False):
     ref = MapRef(); ops = []
     nops = r.range(1, maxops)
@@ -626,7 +663,7 @@ def gen_map(r, maxops, big=False):
 def gen_set(r, maxops):
     ref = SetRef(); ops = []
     nops = r.range(1, maxops)
-    keyspace = r.choice([8, 90])
+    keyspace = r.choice([8, 90, 400])
     live = [[], []]
     while len(ops) < nops:
         i = r.below(NS)
@@ -657,7 +694,7 @@ def gen_deq(r, maxops, multi=True):
     nd = r.range(1, ND)
     bs = r.choice([1, 2, 3, 4, 10])
     for i in range(nd):
-        b = bs if r.chance(3, 4) else r.choice([1, 2, 3, 5])
+        b = bs if (not multi or r.chance(1, 2)) else r.choice([1, 2, 3, 5])   # differing block sizes: swap-diffbs class
         _emit(ref, ops, "deq new %d %d %d" % (i, b, r.weighted([(0, 5), (r.range(1, 7), 2)])))
     while len(ops) < nops + nd:
         i = r.below(nd); l = ref.d[i]
@@ -667,7 +704,7 @@ def gen_deq(r, maxops, multi=True):
         elif k == "pop":
             line = "deq pop %d" % i
         elif k == "resize":
-            if multi and r.chance(1, 2):
+            if r.chance(1, 2):
                 line = "deq resize %d %d" % (i, r.range(0, len(l) + 7))
             else:
                 line = "deq resize %d %d" % (i, max(0, len(l) + r.range(-1, 1)))
@@ -748,7 +785,7 @@ def gen_str(r, maxops, defects=True):
         j = r.below(ns)
         k = r.weighted([("app", 9), ("appstr", 3), ("appsub", 3), ("appn", 4), ("push", 4), ("ins", 6), ("insn", 4), ("erase", 6),
                         ("eraseat", 3), ("clear", 1), ("resize", 4), ("reserve", 2), ("assign", 3), ("assignn", 1),
-                        ("assignsub", 4), ("substr", 4), ("swap", 2), ("new", 1)])
+                        ("assignsub", 4), ("substr", 4), ("swap", 2), ("new", 1), ("eraser", 3), ("assignit", 2)])
         c = r.range(1, 9)
         if k == "app":
             line = "str app %d %s" % (i, us(r.weighted([(0, 1), (1, 3), (r.range(2, 6), 5), (r.range(7, 20), 1)])))
@@ -759,7 +796,7 @@ def gen_str(r, maxops, defects=True):
             if j == i or not src:
                 continue
             p = r.below(len(src))
-            if defects and r.chance(1, 4):
+            if r.chance(1, 4):
                 line = "str appsub %d %d %d npos" % (i, j, p)
             else:
                 line = "str appsub %d %d %d %d" % (i, j, p, r.range(0, len(src) - p))
@@ -783,13 +820,19 @@ def gen_str(r, maxops, defects=True):
             line = "str eraseat %d %d" % (i, r.below(len(s)))
         elif k in ("clear", "new"):
             line = "str %s %d" % (k, i)
+        elif k == "eraser":
+            if not ref.buf[i] and not defects:
+                continue
+            x = r.range(0, len(s)); y = r.range(x, len(s)) if r.chance(2, 3) else len(s)
+            line = "str eraser %d %d %d" % (i, x, y)
+        elif k == "assignit":
+            src = ref.s[j]
+            if j == i:
+                continue
+            x = r.range(0, len(src)); y = r.range(x, len(src))
+            line = "str assignit %d %d %d %d" % (i, j, x, y)
         elif k == "resize":
-            if defects and r.chance(1, 3):
-                line = "str resize %d %d %d" % (i, r.range(0, len(s) + 5), c)
-            elif ref.buf[i]:
-                line = "str resize %d %d %d" % (i, r.range(0, len(s)), c)     # shrink only
-            else:
-                line = "str resize %d %d %d" % (i, r.range(0, 6), c)
+            line = "str resize %d %d %d" % (i, r.weighted([(0, 2), (r.range(0, len(s) + 5), 5)]), c)
         elif k == "reserve":
             line = "str reserve %d %d" % (i, r.range(0, len(s) + 12))
         elif k == "assign":
@@ -807,7 +850,7 @@ def gen_str(r, maxops, defects=True):
             if j == i or not src:
                 continue
             p = r.below(len(src))
-            if r.chance(1, 4) and (defects or p == 0):
+            if r.chance(1, 4):
                 line = "str substr %d %d %d npos" % (i, j, p)
             else:
                 line = "str substr %d %d %d %d" % (i, j, p, r.range(0, len(src) - p))
